@@ -11,7 +11,8 @@ TInit == l = 1 /\ TLCSet(1, 0) /\ Init
 TNext ==
     \/ Is("init") /\ hs' = [h \in H |-> "none"] /\ body' = [h \in H |-> "notstarted"]
          /\ intReq' = [h \in H |-> FALSE] /\ intEn' = [h \in H |-> TRUE] /\ stopReq' = [h \in H |-> FALSE]
-         /\ cbReg' = [h \in H |-> 0] /\ cbRan' = [h \in H |-> 0] /\ op' = [a \in Actor |-> Idle] /\ Adv
+         /\ cbReg' = [h \in H |-> 0] /\ cbRan' = [h \in H |-> 0] /\ op' = [a \in Actor |-> Idle]
+         /\ rel' = [h \in H |-> FALSE] /\ Adv
     \/ Is("call") /\ Call(Rec.a, Rec.op, Rec.h) /\ Adv
     \/ Is("ret") /\ Ret(Rec.a, Rec.res) /\ Adv
     \/ Is("body_begin") /\ BodyBegin(Rec.h) /\ Adv
